@@ -7,7 +7,7 @@ from .common import Failure, f2h, h2f, parse_reply, vec, fs
 ID = "C06"
 BIN = "c06"
 PROOF_MODULES = ["Compute.Props.C06", "Compute.Lemmas.C06Perm", "Compute.Lemmas.C06Spec", "Compute.Lemmas.C06Basic",
-                 "Compute.Props.C06Families"]
+                 "Compute.Props.C06Families", "Compute.Props.C06Review"]
 REQUIRED_THEOREMS = [
     "Cv.C06.dbeta_spec", "Cv.C06.ddbeta_spec", "Cv.C06.penalty_spec",
     "Cv.C06.fixed_point_iff_score", "Cv.C06.family_tables", "Cv.C06.gaussian_deviance_eq_rss", "Cv.C06.gaussian_normal_equations",
@@ -19,6 +19,8 @@ REQUIRED_THEOREMS = [
     "Cv.C06.canonical_variance_eq_dInvLink_list", "Cv.C06.log_link_gamma_working_weight", "Cv.C06.penalizedDeviance_ge",
     "Cv.C06.penalizedDeviance_eq_iff", "Cv.C06.penalizedDeviance_nil", "Cv.C06.setCoef_keeps", "Cv.C06.predict_setCoef",
     "Cv.C06.predict_setCoef_spec", "Cv.C06.initialWorking_textbook", "Cv.C06.initialIntercept_perm",
+    "Cv.C06.fit_last_pass", "Cv.C06.gaussian_pass_solves", "Cv.C06.gaussian_fit_normal_equations",
+    "Cv.C06.covariance_isInverse", "Cv.C06.fit_ok_converged_ne_zero", "Cv.C06.hasConverged_zero",
 ]
 RULE = ("six families x designs n 20..120 (quick) / 20..500 (thorough), p 1..6 with standardised random, polynomial and "
         "indicator columns x {no weights, random weights, constant c in {2,3,.5,.25,7,10}, piecewise constant, all-equal-but-one} x {no offset, offset} x alpha in {0, 0.1, 1, 10} x tolerance "
@@ -42,13 +44,38 @@ NOT_PROVED = [
     "gradient alpha*beta the scoring step uses is alpha*||beta||^2; it only drives the stopping test and is modelled as it is "
     "(opt-in check C06_SQUARED_PENALTY=1)",
     "d_inv_link is evaluated through the rounded mean: accurate to eps*mu absolute, not relative, as mu -> 1 (oracle bound says so)",
+    "the stored deviance and information matrix are ONE SCORING STEP STALE relative to the returned coefficients (glm.rs: coef is "
+    "updated before deviance(y, &mu) and compute_ddbeta(x, &dmu, &var, ..) are evaluated with the mu, dmu, var of the pass): "
+    "fit_last_pass states exactly this; the clause `deviance at the fitted means` therefore holds up to the last step only - the "
+    "oracle allows |grad dev|_(H^-1) * (last-step bound) + tol * pd and observes at most ~21 * tol * deviance (ridge fits, where the "
+    "alpha added to the intercept diagonal makes the iteration converge linearly)",
+    "about the RETURNED coefficients there is a theorem only for the unpenalised Gaussian family (gaussian_fit_normal_equations: "
+    "every pass is an exact weighted least-squares solve); for ridge-Gaussian fits and the five other families the fixed-point "
+    "theorems say where the iteration stops moving, not that the returned iterate is there: decided per run by the mpmath oracle. "
+    "The ridge fixed point IS the ridge solution with unpenalised intercept (gaussian_normal_equations); apply_ddbeta_penalty adding "
+    "alpha to the intercept diagonal changes the convergence rate only",
+    "covariance_isInverse (information * covariance = dispersion * I) is under Regular = SqrtOk and LuPivotsNonzero of the "
+    "information matrix (the hypotheses of C01 invertMatrix_correct); it is not composed with regular_of_det for the GLM",
+    "the floating-point scoring-step theorems (Props/Rounding7, Rounding8; other owner) need p >= 2 (p = 1, intercept only, is "
+    "inside the quantifier and is covered by tie + oracle only) and their hypothesis is `the step leaves beta unchanged in "
+    "floating point`, which is not the code's deviance-based stopping test",
+    "FINDING PROPOSAL pending the lead's decision (key glm:weights:unweighted-deviance, check opt-in C06_WEIGHTED_DEVIANCE=1): with "
+    "prior weights the stored deviance is the unweighted sum while the score, the information and n = round(sum w) are weighted, "
+    "so dispersion and the standard errors of the Gaussian / QuasiPoisson / Gamma families are inconsistent with the weights "
+    "(w = 2 on every row vs the rows duplicated: dispersion and covariance halve, standard errors shrink by sqrt 2)",
     "correctness of the linear solver / inverse used inside the step (C01's theorems; here a hypothesis H * solve H g = g)",
 ]
 TRUSTED = [
     "mpmath (50 digits) for the score equations, the ridge normal equations, deviance, information inverse and predictions",
     "the shared models Cv.solve / Cv.invertMatrix (C01), Cv.matmul (C05), Cv.Vops kernels (C04), Cv.sum8 / Cv.dot8 / Cv.mean",
 ]
-ASSUMPTIONS = ["default cargo features (no blas/lapack)", "Iterator::sum::<f64>() folds from -0.0 (Rust >= 1.83)"]
+ASSUMPTIONS = ["default cargo features (no blas/lapack)", "Iterator::sum::<f64>() folds from -0.0 (Rust >= 1.83)",
+               "the tolerance-based oracle clauses (stationarity, Gaussian ridge solution, deviance, covariance, predictions) run only "
+               "inside the quantifier: 1e-15 <= tol <= 1e-4, n > p + 1, condition number of the penalised information <= 1e13 "
+               "(information: <= 1e12), finite responses; outside, only the exact clauses (dispersion, aic, bic, se = sqrt diag, "
+               "Err/Ok of non-finite results) and the bit-exact tie apply",
+               "has_converged at a previous penalised deviance of exactly 0 is false (|x|/0 is inf or NaN in IEEE); the model spells the "
+               "case out so that the field instance agrees (a perfect fit therefore ends in Err, as the code does)"]
 IMPL_TIMEOUT = 1800
 MODEL_TIMEOUT = 1800
 
@@ -907,7 +934,7 @@ def cond_est(mp, M, p):
     return nrm(M) * nrm(Mi), Mi
 
 
-STATS = {"score": 0.0, "dev": 0.0, "cov": 0.0, "se": 0.0, "pred": 0.0, "gauss": 0.0, "perm": 0.0, "bic": 0.0, "scoreacc": 0.0}
+STATS = {"score": 0.0, "dev": 0.0, "cov": 0.0, "se": 0.0, "pred": 0.0, "gauss": 0.0, "perm": 0.0, "bic": 0.0, "scoreacc": 0.0, "dev_stale_over_tol": 0.0}
 WHERE = {}
 
 
@@ -1027,6 +1054,7 @@ def check_fit(mp, i, line, rep, fails):
     dfloor = n * EPS * dev_abs * (1 + max(A["eta_abs"]))
     dbound = C_DEV * (gdn * step + T) + C_ROUND * dfloor
     stat("dev", float(derr / (gdn * mp.sqrt(T + F) + T + dfloor + tiny)), key0)
+    stat("dev_stale_over_tol", float((derr - C_ROUND * dfloor) / (tol * (abs(A["dev"]) + tiny))) if derr > C_ROUND * dfloor else 0.0, key0)
     if derr > dbound:
         fails.append(Failure(i, "deviance:" + key0, "reported deviance %r differs from the family deviance at the fitted means %r by %.3e > %.3e" % (
             r["dev"], float(A["dev"]), float(derr), float(dbound)), f2h(float(A["dev"]))))
